@@ -26,7 +26,7 @@ PROFILES = {
     # everything: shared handles, workers, faults, cache loss, restarts, retyping, aliasing
     "C09": {
         "n_models": [1, 2],
-        "want": [{}, {}, {"filter": True}],
+        "want": [{}, {}, {"filter": True}, {"cstate": True, "cstate2": True}],
         "workers": [1, 2, 2, 3, 3],
         "fault_free_p": 0.4,
         "restart_p": 0.5,
@@ -40,7 +40,7 @@ PROFILES = {
     },
     "C03": {
         "n_models": [1],
-        "want": [{}, {"stochastic": True, "periods": (3, 5)}, {"stochastic": True, "two_stochastic": True, "periods": (2, 5)}, {"cstate": True}, {"filter": True}],
+        "want": [{}, {"stochastic": True, "periods": (3, 5)}, {"stochastic": True, "two_stochastic": True, "periods": (2, 5)}, {"cstate": True}, {"filter": True}, {"cstate": True, "cstate2": True}],
         "workers": [1, 1, 2],
         "fault_free_p": 0.8,
         "restart_p": 0.1,
@@ -79,7 +79,7 @@ PROFILES = {
     },
     "C06": {
         "n_models": [1],
-        "want": [{"cstate": True, "node": True}, {"cstate": False}, {"cstate": True}, {"filter": True}, {"filter": True, "periods": (3, 4)}],
+        "want": [{"cstate": True, "node": True}, {"cstate": False}, {"cstate": True}, {"filter": True}, {"filter": True, "periods": (3, 4)}, {"cstate": True, "cstate2": True, "node": True}],
         "workers": [1, 2],
         "fault_free_p": 0.8,
         "restart_p": 0.5,
@@ -95,7 +95,7 @@ PROFILES = {
     },
     "C08": {
         "n_models": [1],
-        "want": [{"stochastic": False}, {"stochastic": False}, {"stochastic": False, "filter": True}, {"stochastic": False, "filter": True, "periods": (3, 4)}, {"stochastic": True}],
+        "want": [{"stochastic": False}, {"stochastic": False}, {"stochastic": False, "filter": True}, {"stochastic": False, "filter": True, "periods": (3, 4)}, {"stochastic": False, "cstate": True, "cstate2": True}, {"stochastic": True}],
         "workers": [1, 2],
         "fault_free_p": 0.85,
         "restart_p": 0.1,
@@ -202,9 +202,15 @@ def make_run_plan(run_seed: int, profile: str, tier: str = "quick", overrides: d
             else:
                 b.params[f"{mid}p{j}"] = {"model": mid, "values": catalogue.gen_params(rng, recipe, meta, sparsity)}
         # finite-difference neighbours of p0 (what the gradient of an optimiser evaluates)
-        for q in range(rng.choice(P.get("n_fd", [0, 1, 1, 3, 5]))):
+        n_fd = rng.choice(P.get("n_fd", [0, 1, 1, 3, 5]))
+        # gradient (every neighbour moves another parameter) or line search (all move the same one)
+        line = rng.choice(catalogue.fd_leaves(meta)) if (n_fd >= 2 and rng.random() < 0.5) else None
+        steps = [1e-7, -1e-7, 1e-6, 1e-5, -1e-5, 2e-6, -3e-6]
+        rng.shuffle(steps)
+        for q in range(n_fd):
             fd_pid = f"{mid}p{j + 1 + q}"
-            b.params[fd_pid] = {"model": mid, "values": catalogue.fd_neighbour_params(rng, recipe, meta, b.params[f"{mid}p0"]["values"]), "fd_of": f"{mid}p0"}
+            vals = catalogue.fd_neighbour_params(rng, recipe, meta, b.params[f"{mid}p0"]["values"], leaf=line, step=steps[q] if line else None)
+            b.params[fd_pid] = {"model": mid, "values": vals, "fd_of": f"{mid}p0"}
         if meta["stochastic"] and rng.random() < P.get("f32_shocks_p", 0.15):
             # transition arrays supplied in single precision (values exactly representable, so that
             # the harness's own row lookup is exact)
@@ -522,14 +528,24 @@ def make_run_plan(run_seed: int, profile: str, tier: str = "quick", overrides: d
             # value arrays kept by the caller as ONE list of numpy buffers that is refilled in place
             vf_mode = s0["kind"] == "SIM" and rng.random() < 0.4
             vkey = f"V{inc_index}_{tag}w{w}:{s0['mid']}"
+            # how the caller hands over the parameters: one dict overwritten in place between the calls,
+            # or (criterion-function idiom) a fresh copy of a base dict per evaluation, dropped afterwards
+            fresh = rng.random() < 0.4
+            prev_call = None
             for pos, which in enumerate(pattern):
                 s = slist[which]
-                if not first:
+                if not first and not fresh:
                     ops.append({"id": b.oid(), "kind": "MUTATE", "worker": w, "obj": ["params", key], "to": s["pid"], "leaf": mleaf, "model_id": s["mid"]})
                 op = make_call(s, w, mleaf, hnd=hnd, prefer_inline_solve=not vf_mode, force_v=vf_mode)
                 if op is None:
                     return
-                op["pobj"] = key
+                if fresh:
+                    op["transient"] = "template"
+                    if prev_call is not None:
+                        prev_call["prefetch"] = {"for": op["id"], "params": s["pid"], "leaf": mleaf}
+                    prev_call = op
+                else:
+                    op["pobj"] = key
                 op["leaf"] = mleaf
                 if vf_mode:
                     op["vobj"] = vkey
@@ -571,7 +587,7 @@ def make_run_plan(run_seed: int, profile: str, tier: str = "quick", overrides: d
                 op["pobj"] = key
                 op["leaf"] = mleaf
             if extras["transient"] and not op.get("pobj") and rng.random() < 0.6:
-                op["transient"] = True  # arguments built for this call only (their ids get recycled)
+                op["transient"] = rng.choice([True, "template", "template"])  # arguments built for this call only (their ids get recycled)
             ops.append(op)
             if extras["clear_caches"] and rng.random() < 0.12:
                 ops.append({"id": b.oid(), "kind": "CLEAR_CACHES", "worker": w})
@@ -651,6 +667,8 @@ def make_run_plan(run_seed: int, profile: str, tier: str = "quick", overrides: d
                 o["src"] = final.get(o["src"], o["src"])
             if o["kind"] == "MUTATE" and o["obj"][0] == "vf":
                 o["to"] = final.get(o["to"], o["to"])
+            if o.get("prefetch"):
+                o["prefetch"] = dict(o["prefetch"], **{"for": final.get(o["prefetch"]["for"], o["prefetch"]["for"])})
         for o in out:
             o.pop("_old", None)
         return out, final
